@@ -3,7 +3,7 @@
 use cteepbd::types::{EnergyPerformance, RenNrenCo2};
 
 use super::{flow_models, strs, FlowSpec};
-use crate::cmp::{bits_equal, cmp_flat, show};
+use crate::cmp::{bits_equal, show};
 use crate::core::*;
 use crate::model::*;
 use crate::sched;
@@ -129,7 +129,7 @@ fn check_inner(text: &str, out: &mut Out, exact: bool) {
             }
             for i in 1..flats.len() {
                 let skip = |p: &str| (if exports { k_dependent(p) } else { p == "k_exp" }) || (p.starts_with("rer") && !ratios && !exact);
-                let d = if exact { bits_equal(&flats[0], &flats[i], &skip) } else { cmp_flat(&flats[0], &flats[i], t * 0.05, 2e-6, &skip, &|_, x| x) };
+                let d = if exact { bits_equal(&flats[0], &flats[i], &skip) } else { crate::cmp::cmp_flat_m(&flats[0], &flats[i], t * 0.05, 2e-6, mag, mag, &skip, &|_, x| x) };
                 out.compared += 1;
                 if !d.is_empty() {
                     let (a, b) = show(&d);
